@@ -188,6 +188,9 @@ func tlcpScript(s scen) (string, string) {
 			sendCert, sendCV = true, true
 		case "s-nomsg":
 			sendCert, sendCV = false, false
+		case "s-onecert-nocv":
+			certOpts = &tlcp.VerifSendOpts{Certificates: [][]byte{sig.DER}}
+			sendCV = false
 		case "s-onecert":
 			certOpts = &tlcp.VerifSendOpts{Certificates: [][]byte{sig.DER}}
 		case "s-edsig":
